@@ -15,7 +15,46 @@ import numpy as np
 
 from svx.contract import and_, unit
 
-from .c_coupling import S_, object_array_modules
+from .c_coupling import S_ as _S_sym, object_array_modules as _object_array_modules
+
+_NATIVE = [False]
+
+
+def S_(x):
+    """exact symbol in the symbolic mode; plain float when the same unit text replays on the compiled code"""
+    if _NATIVE[0]:
+        return float(x)
+    return _S_sym(x)
+
+
+def object_array_modules(*mods):
+    return contextlib.nullcontext() if _NATIVE[0] else _object_array_modules(*mods)
+
+
+def fresh(K, name, shape):
+    """arbitrary (stale) prior content under a stable name, so that a counterexample can be replayed"""
+    if K.mode == "sym":
+        from svx import objnp
+        return objnp.fresh(name, shape)
+    return K.array(name, shape)
+
+
+def const_arr(K, shape, c):
+    if K.mode == "sym":
+        from svx import objnp
+        return objnp.const(shape, c)
+    return np.full(shape, float(c))
+
+
+def empty_arr(K, shape):
+    return np.empty(shape, dtype=object) if K.mode == "sym" else np.zeros(shape)
+
+
+def num(K, c):
+    if K.mode == "sym":
+        from svx.sym import Sym
+        return Sym.const(c)
+    return float(c)
 
 RB_MOD = "sopht.simulator.immersed_body.rigid_body.rigid_body_forcing_grids"
 CR_MOD = "sopht.simulator.immersed_body.cosserat_rod.cosserat_rod_forcing_grids"
@@ -58,10 +97,12 @@ class Rot:
         from svx.sym import Sym
         self.q = [K.real(f"{name}_q{i}") for i in range(4)]
         if planar:  # rotation about z only (2-D bodies move in the XY plane)
-            self.q[1] = self.q[2] = Sym.const(0)
+            self.q[1] = self.q[2] = num(K, 0)
         a, b, c, d = self.q
-        self.n = K.real(f"{name}_qnorm2", pos=True)
+        self.native = K.mode != "sym"
         self.norm2 = a * a + b * b + c * c + d * d
+        # replay on the compiled code: n IS |q|^2 (a numeric rotation matrix), `reduce` has nothing to substitute
+        self.n = K.real(f"{name}_qnorm2", pos=True) if not self.native else self.norm2
         R = [[a * a + b * b - c * c - d * d, 2 * (b * c - a * d), 2 * (b * d + a * c)],
              [2 * (b * c + a * d), a * a - b * b + c * c - d * d, 2 * (c * d - a * b)],
              [2 * (b * d - a * c), 2 * (c * d + a * b), a * a - b * b - c * c + d * d]]
@@ -69,6 +110,8 @@ class Rot:
 
     def reduce(self, expr):
         """expr modulo n = |q|^2 (clears the negative powers of n, then substitutes)"""
+        if self.native:
+            return expr
         from svx.sym import Sym
         e = S_(expr)
         (m, _), = self.n.p.items()
@@ -105,14 +148,12 @@ def bypass_init(cls, **attrs):
       assumes=("M5: every rotation matrix is R(q)/|q|^2 for a quaternion q", "layouts bounded: 3 markers with symbolic body-frame offsets",
                "PyElastica pose advance Q(delta) = (I - delta [Omega]_x) Q + O(delta^2), X(delta) = X + delta V (assumed)"))
 def rigid_body_forcing_grids(K, kind):
-    if K.mode != "sym":
-        return None
-    from svx import objnp
+    _NATIVE[0] = K.mode != "sym"
     N = 3
     dim = 2 if kind == "cylinder_2d" else 3
     rot = Rot(K, "body", planar=(dim == 2))
     body = Body()
-    body.director_collection = np.empty((3, 3, 1), dtype=object)
+    body.director_collection = empty_arr(K, (3, 3, 1))
     for i in range(3):
         for j in range(3):
             body.director_collection[i, j, 0] = rot.Q[i][j]
@@ -129,18 +170,18 @@ def rigid_body_forcing_grids(K, kind):
                "sphere": "SphereForcingGrid"}[kind]
     with object_array_modules(RB_MOD, *EL_MODS):
         cls = K.repo(f"{RB_MOD}:{clsname}")
-        attrs = dict(grid_dim=dim, num_lag_nodes=N, position_field=objnp.fresh("stale_pos", (dim, N)),
-                     velocity_field=objnp.fresh("stale_vel", (dim, N)),
+        attrs = dict(grid_dim=dim, num_lag_nodes=N, position_field=fresh(K, "stale_pos", (dim, N)),
+                     velocity_field=fresh(K, "stale_vel", (dim, N)),
                      local_frame_relative_position_field=sym_array(K, "r_local", (dim, N)),
                      global_frame_relative_position_field=(sym_array(K, "r_global", (dim, N)) if kind == "sphere"
-                                                           else objnp.fresh("stale_rel", (dim, N))))
+                                                           else fresh(K, "stale_rel", (dim, N))))
         attrs["cylinder" if dim == 2 else "rigid_body"] = body
         g = bypass_init(cls, **attrs)
         r_local = g.local_frame_relative_position_field.copy()
         g.compute_lag_grid_position_field()
         g.compute_lag_grid_velocity_field()
         F = sym_array(K, "lag_grid_forcing_field", (dim, N))
-        forces, torques = objnp.fresh("stale_body_forces", (3, 1)), objnp.fresh("stale_body_torques", (3, 1))
+        forces, torques = fresh(K, "stale_body_forces", (3, 1)), fresh(K, "stale_body_torques", (3, 1))
         g.transfer_forcing_from_grid_to_body(forces, torques, F)
     QT = transpose(rot.Q)
     w_lab = matvec(QT, Om)
@@ -208,24 +249,26 @@ def rod_stub(K, E, planar):
     rod.radius = sym_array(K, "radius", (E,))
     rod.lengths = sym_array(K, "lengths", (E,))
     rod.tangents = sym_array(K, "tangent", (3, E))
+    if K.mode != "sym":  # random replays: draw the positive quantities positive (a counterexample's values already are)
+        rod.mass[...] = np.abs(rod.mass) + 0.1 * (rod.mass <= 0)
+        rod.radius[...] = np.abs(rod.radius) + 0.1 * (rod.radius <= 0)
     for j in range(E + 1):
         K.requires(S_(rod.mass[j]) > 0)
     for e in range(E):
         K.requires(S_(rod.radius[e]) > 0)
     rots = [Rot(K, f"elem{e}", planar=planar) for e in range(E)]
-    rod.director_collection = np.empty((3, 3, E), dtype=object)
+    rod.director_collection = empty_arr(K, (3, 3, E))
     for e in range(E):
         for i in range(3):
             for j in range(3):
                 rod.director_collection[i, j, e] = rots[e].Q[i][j]
     if planar:
-        from svx.sym import Sym
         for j in range(E + 1):
-            rod.position_collection[2, j] = Sym.const(0)
-            rod.velocity_collection[2, j] = Sym.const(0)
+            rod.position_collection[2, j] = num(K, 0)
+            rod.velocity_collection[2, j] = num(K, 0)
         for e in range(E):
-            rod.omega_collection[0, e] = rod.omega_collection[1, e] = Sym.const(0)
-            rod.tangents[2, e] = Sym.const(0)
+            rod.omega_collection[0, e] = rod.omega_collection[1, e] = num(K, 0)
+            rod.tangents[2, e] = num(K, 0)
     return rod, rots
 
 
@@ -269,10 +312,7 @@ def reduce_all(rots, expr):
                "symbolic cap ratios), one element with a single centre marker",
                "edge grid: rod in the XY plane (the class' own documented assumption)"))
 def cosserat_rod_forcing_grids(K, kind, dim):
-    if K.mode != "sym":
-        return None
-    from svx import objnp
-    from svx.sym import Sym
+    _NATIVE[0] = K.mode != "sym"
     E = 2
     planar = dim == 2
     rod, rots = rod_stub(K, E, planar)
@@ -289,42 +329,49 @@ def cosserat_rod_forcing_grids(K, kind, dim):
         attrs = dict(grid_dim=dim, cosserat_rod=rod)
         if kind == "nodal":
             N = E + 1
-            attrs["moment_arm"] = objnp.fresh("stale_arm", (3, E))
+            attrs["moment_arm"] = fresh(K, "stale_arm", (3, E))
             owner = None
         elif kind == "element_centric":
             N = E
             owner = list(range(E))
         elif kind == "edge":
             N = 3 * E
-            zv = np.empty((3, E), dtype=object)
+            zv = empty_arr(K, (3, E))
             for e in range(E):
-                zv[0, e], zv[1, e], zv[2, e] = Sym.const(0), Sym.const(0), Sym.const(1)
-            attrs.update(z_vector=zv, moment_arm=objnp.fresh("stale_arm", (3, E)), start_idx_elems=0, end_idx_elems=E,
+                zv[0, e], zv[1, e], zv[2, e] = num(K, 0), num(K, 0), num(K, 1)
+            attrs.update(z_vector=zv, moment_arm=fresh(K, "stale_arm", (3, E)), start_idx_elems=0, end_idx_elems=E,
                          start_idx_left_edge_nodes=E, end_idx_left_edge_nodes=2 * E, start_idx_right_edge_nodes=2 * E,
-                         end_idx_right_edge_nodes=3 * E, element_forces_left_edge_nodes=objnp.const((3, E), 0),
-                         element_forces_right_edge_nodes=objnp.const((3, E), 0))
+                         end_idx_right_edge_nodes=3 * E, element_forces_left_edge_nodes=const_arr(K, (3, E), 0),
+                         element_forces_right_edge_nodes=const_arr(K, (3, E), 0))
             owner = list(range(E)) * 3
         else:
             N = 4  # element 0: three surface markers, element 1: one centre marker
             owner = [0, 0, 0, 1]
-            lsp = np.empty((3, N), dtype=object)
+            lsp = empty_arr(K, (3, N))
             for k in range(3):
-                lsp[0, k], lsp[1, k], lsp[2, k] = K.real(f"cosang{k}"), K.real(f"sinang{k}"), Sym.const(0)
-                K.requires(S_(lsp[0, k]) ** 2 + S_(lsp[1, k]) ** 2 == 1)
-            lsp[0, 3] = lsp[1, 3] = lsp[2, 3] = Sym.const(0)
-            ratio = np.empty((N,), dtype=object)
+                ck, sk = K.real(f"cosang{k}"), K.real(f"sinang{k}")
+                if _NATIVE[0]:  # the unit direction of the counterexample (or a random one), renormalised in floating point
+                    h = (ck * ck + sk * sk) ** 0.5
+                    ck, sk = (ck / h, sk / h) if h > 0 else (1.0, 0.0)
+                lsp[0, k], lsp[1, k], lsp[2, k] = ck, sk, num(K, 0)
+                if not _NATIVE[0]:
+                    K.requires(S_(lsp[0, k]) ** 2 + S_(lsp[1, k]) ** 2 == 1)
+            lsp[0, 3] = lsp[1, 3] = lsp[2, 3] = num(K, 0)
+            ratio = empty_arr(K, (N,))
             for k in range(N):
                 ratio[k] = K.real(f"cap_ratio{k}", nonneg=True)
+                if _NATIVE[0]:
+                    ratio[k] = min(ratio[k], 1.0)
                 K.requires(S_(ratio[k]) <= 1)
             attrs.update(n_elems=E, start_idx=np.array([0, 3]), end_idx=np.array([3, 4]), local_frame_surface_points=lsp,
-                         grid_point_radius_ratio=ratio, moment_arm=objnp.fresh("stale_arm", (3, N)),
-                         rod_director_collection_transpose=objnp.fresh("stale_dirT", (3, 3, E)),
-                         rod_element_position=objnp.fresh("stale_xc", (3, E)), rod_element_velocity=objnp.fresh("stale_vc", (3, E)),
-                         rod_element_global_frame_omega=objnp.fresh("stale_w", (3, E)),
-                         grid_point_director_transpose=objnp.fresh("stale_gdT", (3, 3, N)),
-                         grid_point_radius=objnp.fresh("stale_gr", (N,)), grid_point_omega=objnp.fresh("stale_gw", (3, N)),
-                         lag_grid_torque_field=objnp.fresh("stale_tq", (3, N)))
-        attrs.update(num_lag_nodes=N, position_field=objnp.fresh("stale_pos", (dim, N)), velocity_field=objnp.fresh("stale_vel", (dim, N)))
+                         grid_point_radius_ratio=ratio, moment_arm=fresh(K, "stale_arm", (3, N)),
+                         rod_director_collection_transpose=fresh(K, "stale_dirT", (3, 3, E)),
+                         rod_element_position=fresh(K, "stale_xc", (3, E)), rod_element_velocity=fresh(K, "stale_vc", (3, E)),
+                         rod_element_global_frame_omega=fresh(K, "stale_w", (3, E)),
+                         grid_point_director_transpose=fresh(K, "stale_gdT", (3, 3, N)),
+                         grid_point_radius=fresh(K, "stale_gr", (N,)), grid_point_omega=fresh(K, "stale_gw", (3, N)),
+                         lag_grid_torque_field=fresh(K, "stale_tq", (3, N)))
+        attrs.update(num_lag_nodes=N, position_field=fresh(K, "stale_pos", (dim, N)), velocity_field=fresh(K, "stale_vel", (dim, N)))
         if kind == "surface":
             # the REAL constructor runs on a concrete tapered rod that produces this layout (3 + 1 markers); every
             # attribute it creates is kept, then the state it cached is replaced by symbols (DESIGN appendix B)
@@ -338,8 +385,8 @@ def cosserat_rod_forcing_grids(K, kind, dim):
         g.compute_lag_grid_position_field()
         g.compute_lag_grid_velocity_field()
         F = sym_array(K, "lag_grid_forcing_field", (dim, N))
-        forces = objnp.const((3, E + 1), 0) if kind == "element_centric" else objnp.fresh("stale_body_forces", (3, E + 1))
-        torques = objnp.const((3, E), 0) if kind == "element_centric" else objnp.fresh("stale_body_torques", (3, E))
+        forces = const_arr(K, (3, E + 1), 0) if kind == "element_centric" else fresh(K, "stale_body_forces", (3, E + 1))
+        torques = const_arr(K, (3, E), 0) if kind == "element_centric" else fresh(K, "stale_body_torques", (3, E))
         g.transfer_forcing_from_grid_to_body(forces, torques, F)
     pad = lambda vec: list(vec) + [S_(0)] * (3 - len(vec))
     P = [K.real(f"P{i}") for i in range(3)]
